@@ -207,7 +207,7 @@ def replay(path):
         if line.startswith('impl-only'):
             print('%-40s (impl-only step, not replayed)' % line)
             continue
-        op = tuple(None if t == 'N' else int(t) if t.lstrip('-').isdigit() else t for t in line.split())
+        op = H.parse_line(line)
         before = w.full_observation()
         out = w.apply(op)
         d = _diff(before, w.full_observation()) if out != 'ok' else {}
